@@ -210,6 +210,10 @@ def pure_cases(draw):
     cfg = {"mode": r.choice(["strict", "lax"]), "extra": True, "twice": False}
     main = gg.Gen(r, _profile()).template()
     data = gd.DataGen(r).data()
+    # flat, unsorted, homogeneous lists: what in-place sort/reverse/uniq would disturb
+    data["items"] = r.sample([3, 1, 2, 5, 4, 1], r.randint(2, 6))
+    data["s"] = r.sample(["b", "C", "a", "B", "c"], r.randint(2, 5))
+    data["n"] = [{"a": v, "name": str(v)} for v in r.sample([3, 1, 2], 3)]
     return {"kind": "pure", "cfg": cfg, "main": main, "data": data}
 
 
